@@ -91,6 +91,7 @@ func C03(c *vlib.Ctx) {
 	c03Sequential(c)
 	leaseDirected(c, "C03")
 	c03Dispatcher(c)
+	c03LateSettleTwoHandles(c)
 	c.CollectRaces()
 }
 
